@@ -57,7 +57,8 @@ class Deck:
         self.image_name = "deck%d.pptx" % idx
         self.start_image: bytes | None = None
         self.handles: dict = {}      # (actor, key) -> proxy
-        self.memo: dict = {}         # per-oracle durable notes keyed by oracle name, rolled back on restart
+        self.memo: dict = {}         # oracle notes about durable state; rolled back to memo_saved on restart
+        self.memo_saved: dict | None = None
         self.saves = 0
         self.torn: list[bytes] = []  # unacknowledged artefacts
         self.alive = False
@@ -170,8 +171,14 @@ class World:
             src = SimSource(data, pos=pos, counters=self.faults)
             deck.prs = pptx.Presentation(src)
         deck.alive = True
+        if deck.memo_saved is not None:
+            import copy
+            deck.memo = copy.deepcopy(deck.memo_saved)  # only durable state survives a restart
         for o in self.oracles:
             o.on_open(self, deck)
+        if deck.memo_saved is None:
+            import copy
+            deck.memo_saved = copy.deepcopy(deck.memo)
 
     def save_deck(self, deck: Deck, sink_kind: str = "seekable", fault: dict | None = None):
         """prs.save(...) through the chosen sink. Returns (acked, image_or_None, exc_or_None)."""
